@@ -27,6 +27,10 @@ def _top(i, n=4, hi=13):
     return ['b%d == %s' % (hi - j, bool((i >> j) & 1)) for j in range(n)]
 
 
+def _fix(lo, width, v):
+    return ['b%d == %s' % (lo + i, bool((v >> i) & 1)) for i in range(width)]
+
+
 def obligations(tier, seed):
     t = 400 if tier == 'quick' else 3000
     # quick explores a seeded quarter of each grammar index space (two middle index bits pinned by the seed)
@@ -37,7 +41,7 @@ def obligations(tier, seed):
              bounds='%d slots x %d child kinds (index from 14 boolean structure parameters; quick: a seeded quarter)' % (pk.N_SLOT, pk.N_CHILD)),
         dict(name='C02a.expr.twin', fn='expr_twin', timeout=t, shards=[['p == 5']], expect='refuted', bounds='reachability twin: parentheses are emitted'),
         dict(name='C02b.stmt_roundtrip', fn='stmt_roundtrip', timeout=t,
-             shards=[_top(i) + q + ['c2 == %d' % c2] for i in range(16) for c2 in ((1,) if tier == 'quick' else (1, 9, 41, 63))],
+             shards=[_top(i) + q + _fix(14, 7, c2) for i in range(16) for c2 in ((1,) if tier == 'quick' else (1, 9, 41, 63))],
              bounds='all %d statement templates x %d child kinds' % (pk.N_STMT, pk.N_CHILD)),
         dict(name='C02d.number_print', fn='number_print_b', timeout=t, shards=[['b0 == True'], ['b0 == False']], bounds='see META'),
         dict(name='C02e.ministring', fn='ministring', timeout=t, shards=[['len(s) <= %d' % n, 'q == %d' % q, 'not has_surrogate(s)'] for q in range(4)],
@@ -52,10 +56,10 @@ def obligations(tier, seed):
         dict(name='C02e.fstr_bytes_alpha', fn='fstr_bytes_alpha', timeout=t, shards=[['n <= %d' % n, 'qmask == %d' % qm] for qm in (15, 7, 3)], bounds='byte alphabet'),
     ]
     if tier == 'thorough':
-        obs.append(dict(name='C02a.expr_roundtrip3', fn='expr_roundtrip3', timeout=t, shards=[['p == %d' % p] for p in range(pk.N_SLOT)],
+        obs.append(dict(name='C02a.expr_roundtrip3', fn='expr_roundtrip3', timeout=t, shards=[_fix(14, 7, p) for p in range(pk.N_SLOT)],
                         bounds='depth 3: %d x %d x %d' % (pk.N_SLOT, pk.N_CHILD, pk.N_CHILD)))
         obs.append(dict(name='C02a.expr_roundtrip.py311', fn='expr_roundtrip', timeout=t, python='py311', shards=[_top(i) for i in range(16)],
                         bounds='same on Python 3.11.7'))
-        obs.append(dict(name='C02b.stmt_roundtrip.py311', fn='stmt_roundtrip', timeout=t, python='py311', shards=[_top(i) + ['c2 == 1'] for i in range(16)],
+        obs.append(dict(name='C02b.stmt_roundtrip.py311', fn='stmt_roundtrip', timeout=t, python='py311', shards=[_top(i) + _fix(14, 7, 1) for i in range(16)],
                         bounds='same on Python 3.11.7'))
     return obs
